@@ -40,10 +40,10 @@ def clauses_for(f, records):
     ps = list(zip(f['params_canon'], ['a%d' % k for k in range(len(f['params']))]))
     if f['id'] in UNCOVERED_BY_DESIGN:
         return None, UNCOVERED_BY_DESIGN[f['id']]
-    if f['id'] in EXPLICIT:
-        return list(EXPLICIT[f['id']]), None
     impl = F.pointee(f['ret_canon'])
     iface = F.interface_of(records, impl)
+    if f['id'] in EXPLICIT:
+        return list(EXPLICIT[f['id']]), None, [], iface
     if iface not in records:
         return None, 'interface class %s of %s is not in the catalogue' % (iface, impl)
     accs = [a for a in F.accessors(records, iface) if a['name'] not in NOT_OPERANDS]
@@ -91,7 +91,7 @@ def wrapper(f, records):
     clauses.append(('category_ok(i)', 'the node carries the category code of its own interface class'))
     ps = list(f['params']); names = ['a%d' % k for k in range(len(ps))]
     t = 'unsigned c02_%s(%s& f%s, const void** out)\n{\n' % (f['cid'], f['cls'], ''.join(', %s %s' % (p, a) for p, a in zip(ps, names)))
-    t += '   const auto& n = deref(f.%s(%s)); *out = &n;\n   const auto& i = iface(n);\n   unsigned bad = 0;\n' % (f['name'], ', '.join(names))
+    t += '   const auto& n = deref(f.%s(%s)); *out = &n;\n   const %s& i = n;      // the interface class a client sees\n   unsigned bad = 0;\n' % (f['name'], ', '.join(names), r[3])
     for k, (cond, text) in enumerate(clauses):
         t += '   if (!(%s)) bad |= %du;\n' % (cond, 1 << k)
     t += '   return bad;\n}\n'
